@@ -435,7 +435,7 @@ def d4(ctx, rep):
         if isinstance(s, ast.Assign) and isinstance(s.targets[0], ast.Name) and any(isinstance(c, ast.Call) and call_name(c) == 'resample' for c in ast.walk(s.value)):
             rs = [c for c in ast.walk(s.value) if isinstance(c, ast.Call) and call_name(c) == 'resample']
             gs = guard_chain(s, fit.node)
-            guarded = any(is_self_attr(t, fit.self_name, '_sample_size') and pol for t, pol in gs)
+            guarded = any(is_self_attr(_res(fit, t) if isinstance(t, ast.Name) else t, fit.self_name, '_sample_size') and pol for t, pol in gs)
             recv = _res(fit, rs[0].func.value) if rs and isinstance(rs[0].func, ast.Attribute) else None
             src_expr = _kde_dataset_arg(prog, fit, recv)
             src_res = derives_rhs(src_expr, ()) if src_expr is not None else None
